@@ -264,7 +264,21 @@ func (g *Gen) recvCase(ok [rcN]bool, module bool, usedPool *[][2]uint64) {
 		}
 		sender := messengerAddr(src)
 		if !ok[rcSender] {
-			sender = g.rand32()
+			switch g.pick(5) {
+			case 0:
+				sender = g.rand32()
+			case 1: // differs only in the high 12 bytes
+				sender = append([]byte{}, sender...)
+				sender[g.pick(12)] ^= byte(1 + g.pick(255))
+			case 2: // differs only in the low 20 bytes
+				sender = append([]byte{}, sender...)
+				sender[12+g.pick(20)] ^= byte(1 + g.pick(255))
+			case 3: // the messenger of another domain
+				sender = messengerAddr(src + 1)
+			default:
+				sender = append([]byte{}, sender...)
+				sender[31] ^= 1
+			}
 		}
 		amt := bigPool(g)
 		if !ok[rcMint] {
@@ -1403,7 +1417,8 @@ func scnReplace(g *Gen, budget int, arg string) {
 func (g *Gen) emitReplace(from string, orig, att []byte, burnShaped bool) {
 	caller := [][]byte{make([]byte, 32), g.rand32(), g.rand32(), {}, g.randBytes(31)}[g.pick(5)]
 	if burnShaped || g.chance(0.2) {
-		rcp := [][]byte{g.rand32(), g.rand32(), g.rand32(), make([]byte, 32), {}, g.randBytes(33)}[g.pick(6)]
+		rcp := [][]byte{g.rand32(), g.rand32(), g.rand32(), make([]byte, 32), {}, g.randBytes(33),
+			append(g.rand32(), big.NewInt(1000000000).FillBytes(make([]byte, 32))...), g.randBytes(96), g.randBytes(31)}[g.pick(9)]
 		g.tx("ReplaceDepositForBurn", newKV().set("from", hs(from)).set("message", hx(orig)).set("attestation", hx(att)).
 			set("newCaller", hx(caller)).set("newMintRecipient", hx(rcp)).set("ecr", ecrEntries(orig, att)))
 	}
